@@ -4,6 +4,7 @@
         final(w).journal.failed ==> final(w).poison[final(w).db_poison], // [C13:P-POISON-error-poisons]
         old(w).poison[old(w).db_poison] && self.data@.len() > 0 ==> r is Err && untouched(*old(w), *final(w)), // [C13:P-POISON-refuse-when-poisoned]
         inv(*final(w)), // [C06:inv] [C13:inv]
+        !final(w).journal.locked, // [C06:critical-section-closed]
         r is Err ==> final(w).trees == old(w).trees && final(w).visible == old(w).visible, // [C13:failed-call-applies-nothing] [C03:failed-batch-applies-nothing]
         final(w).deleted == old(w).deleted && final(w).db_poison == old(w).db_poison,
         self.data@.len() == 0 ==> r is Ok && *final(w) == *old(w), // [C08:empty-batch-is-noop]
